@@ -111,8 +111,12 @@ class ProtocolProgress(Progress):
             )
 
             if match:
-                self.continue_value = int(match.group(1))
-                self.max_value = int(match.group(3))
+                try:
+                    self.continue_value = int(match.group(1))
+                    self.max_value = int(match.group(3))
+                except ValueError:
+                    # Only digits, but newer Pythons refuse very long ones
+                    pass
 
         elif response.protocol == 'ftp':
             response = cast(FTPResponse, response)
